@@ -67,6 +67,10 @@ def c10_schema(backend: str) -> Dict[str, Any]:
     m = J["members"]
     m["m_uint"] = num("unsigned int", md=md_method(jet, "m_uint", return_type="unsigned int"))
     m["m_short"] = num("short", md=md_method(jet, "m_short", return_type="short"))
+    # const-qualified VALUE returns (as copied from a C++ signature): the qualifier says nothing about the variables and columns made from it
+    m["c_f"] = num("float", md=md_method(jet, "c_f", return_type="const float"))
+    m["c_i"] = num("int", md=md_method(jet, "c_i", return_type="const int"))
+    m["c_d"] = num("double", declared=True, md=md_method(jet, "c_d", return_type="const double"))
     m["und"] = num("double", declared=False)
     # undeclared members whose NAMES suggest another type (predicates, counters): the documented assumption is double, whatever the name
     for hn in HINTING_NAMES:
@@ -135,7 +139,7 @@ def templates(s, backend) -> List[Tuple[str, str, str]]:
     jet = s["collections"][s["main"]["coll"]]["element"]
     E = jet.replace("::", ".") + ".Color"
     T: List[Tuple[str, str, str]] = []
-    for mth in ("nTrk", "m_uint", "m_short", "width", "isGood", "und", "t_big", "t_dbl"):
+    for mth in ("nTrk", "m_uint", "m_short", "width", "isGood", "und", "t_big", "t_dbl", "c_f", "c_i", "c_d"):
         T += [(mth, "value", f"j.{mth}()"), (mth, "arith", f"(j.{mth}() * 2 + 1)"), (mth, "compare", f"(j.{mth}() > 1)"),
               # the same bare value one level deeper: a vector-of-vectors column carries the declared (tree) type too
               (mth, "nested_value", f"j.v_f().Select(lambda v: j.{mth}())")]
